@@ -13,7 +13,7 @@ EXTRA = {"C02-mutant-a": ["C05"], "C02-mutant-b": ["C15"], "C03-mutant-a": ["C10
          "C10-mutant-a": ["C03"], "C10-mutant-b": ["C13"], "C14-mutant-b": ["C13"], "C15-mutant-b": ["C12"], "C17-mutant-a": ["C08"], "C17-mutant-b": ["C14"],
          "C20-mutant-b": ["C16"], "C07-mutant-a": ["C06"], "C01-mutant-b": ["C04"], "C04-mutant-a": ["C01"]}
 RACE_DEMO = {"C16-mutant-b"}
-REBASED = {"C01-mutant-a": "/tmp/rebased/C01-mutant-a/patch.diff", "C01-mutant-b": "/tmp/rebased/C01-mutant-b/patch.diff", "C04-mutant-a": "/tmp/rebased/C04-mutant-a/patch.diff"}
+REBASED = {"C09-mutant-b": "/tmp/rebased/C09-mutant-b/patch.diff", "C01-mutant-a": "/tmp/rebased/C01-mutant-a/patch.diff", "C01-mutant-b": "/tmp/rebased/C01-mutant-b/patch.diff", "C04-mutant-a": "/tmp/rebased/C04-mutant-a/patch.diff"}
 
 ROUND = os.environ.get("SEED_ROUND", "")
 if ROUND == "r2":
@@ -25,6 +25,10 @@ if ROUND == "r2":
              "C06-mutant-b": ["C19"], "C11-mutant-a": ["C06"], "C11-mutant-b": ["C06"], "C14-mutant-a": ["C08"], "C14-mutant-b": ["C08"], "C01-mutant-a": ["C15", "C04"], "C01-mutant-b": ["C15", "C19"], "C19-mutant-a": ["C06", "C07"], "C19-mutant-b": ["C05"]}
     RACE_DEMO = set()
     REBASED = {"C03-mutant-b": "/tmp/rebased/C03-r2-mutant-b/patch.diff"}
+
+if ROUND == "r3":
+    PKG, RACE_DEMO, REBASED = {}, set(), {}
+    EXTRA = json.load(open(os.environ["SEED_EXTRA"])) if os.environ.get("SEED_EXTRA") else {}
 
 def sh(cmd, cwd=None, timeout=1800):
     p = subprocess.run(cmd, shell=True, cwd=cwd, env=ENV, capture_output=True, text=True, timeout=timeout)
@@ -47,12 +51,26 @@ def main():
             d = f"{SRC}/{prop}/{m}"
             if not os.path.exists(f"{d}/patch.diff"): continue
             key = f"{prop}-{m}"
-            patch = REBASED.get(key, f"{d}/patch.diff")
+            out_dir = f"/verif/seeded/{key}" if not ROUND else f"/verif/seeded/{prop}-{ROUND}-{m}"
             assert sh("git status --porcelain", cwd=REPO)[1].strip() == "", "repo not clean"
-            if sh(f"git apply --check {patch}", cwd=REPO)[0] != 0:
+            # the delivered patch, unless a later fix commit made it stop applying:
+            # then the same edit re-made on the fixed code (kept in /verif/seeded)
+            patch = None
+            for cand in (f"{d}/patch.diff", REBASED.get(key), f"{out_dir}/patch.diff"):
+                if cand and os.path.exists(cand) and sh(f"git apply --check {cand}", cwd=REPO)[0] == 0:
+                    patch = cand; break
+            if patch is None:
                 rows.append((key, "PATCH DOES NOT APPLY", {})); continue
+            rebased = open(patch).read() != open(f"{d}/patch.diff").read()
             pkgdir = PKG.get(key, PKG.get(prop, "."))
+            try:
+                dd = json.load(open(f"{d}/meta.json")).get("demo_dir")
+                if dd and dd != "main" and os.path.isdir(f"{REPO}/{dd}"): pkgdir = dd.strip("/") or "."
+            except Exception: pass
             race = key in RACE_DEMO
+            try:
+                if "-race" in json.load(open(f"{d}/meta.json")).get("demo", ""): race = True
+            except Exception: pass
             without = demo(pkgdir, d, race)
             sh(f"git apply {patch}", cwd=REPO)
             suite = sh(f"/verif/tools/repotest.sh {REPO}")[0] == 0
@@ -66,10 +84,9 @@ def main():
             ok = suite and without == 0 and withp != 0
             rows.append((key, "confirmed" if ok else f"NOT CONFIRMED suite={suite} demo_without={without} demo_with={withp}", caught))
             if ok:
-                out_dir = f"/verif/seeded/{key}" if not ROUND else f"/verif/seeded/{prop}-{ROUND}-{m}"
                 os.makedirs(out_dir, exist_ok=True)
-                shutil.copy(patch, f"{out_dir}/patch.diff")
-                if key in REBASED: shutil.copy(f"{d}/patch.diff", f"{out_dir}/patch.as-delivered.diff")
+                if patch != f"{out_dir}/patch.diff": shutil.copy(patch, f"{out_dir}/patch.diff")
+                if rebased: shutil.copy(f"{d}/patch.diff", f"{out_dir}/patch.as-delivered.diff")
                 shutil.copy(f"{d}/demo_test.go", f"{out_dir}/demo_test.go")
                 try: meta = json.load(open(f"{d}/meta.json"))
                 except Exception: meta = {"property": prop}
@@ -77,7 +94,7 @@ def main():
                 meta["demo_needs_race_flag"] = race
                 meta["confirmed"] = {"repo_head": head, "suite_passes_with_patch": suite, "demo_passes_without_patch": without == 0, "demo_fails_with_patch": withp != 0,
                                      "how": "tools/seeded_all.py: git apply, tools/repotest.sh, go test of the demonstration with and without the patch, ./check <ID> quick, git checkout"}
-                if key in REBASED: meta["rebased"] = "the delivered patch no longer applied (or compiled) after a later fix commit to the same function; patch.diff is the same edit re-made on the fixed code, patch.as-delivered.diff is the original"
+                if rebased: meta["rebased"] = "the delivered patch no longer applied (or compiled) after a later fix commit to the same function; patch.diff is the same edit re-made on the fixed code, patch.as-delivered.diff is the original"
                 meta["checks"] = caught
                 json.dump(meta, open(f"{out_dir}/meta.json", "w"), indent=1, ensure_ascii=False)
     for key, status, caught in rows:
